@@ -339,6 +339,14 @@ def player_scenario(ctx, j):
                         expected.append((base + k, acc))
                         acc = acc + du
                 pat = evp.Ppar(*ch)
+            elif form == 'pmono':
+                # one synth; the first event creates it, the following ones set its controls: every message carries
+                # the event's value for the control (freq after harmonic and detune, like any note event)
+                fr = [ctx.real(f'f{i}', 100, 400) for i in range(3)]
+                harm, det = ctx.real('harm', 1, 3), ctx.real('detune', 0, 5)
+                durs = [ctx.real(f'dur{i}', 0.25, 2) for i in range(3)]
+                pat = evp.Pmono('vgate', {'freq': lsp.Pseq(list(fr)), 'harmonic': harm, 'detune': det,
+                                          'dur': lsp.Pseq(list(durs))})
             else:   # pdur
                 durs = [ctx.real(f'dur{i}', 0.25, 2) for i in range(3)]
                 total = ctx.real('total', 0.25, 5)
@@ -371,6 +379,23 @@ def player_scenario(ctx, j):
                       'preceding deltas of its own timeline', data('time'))
         if len(snew) != len(expected):
             raise Violation(f'{len(snew)} events played, {len(expected)} expected', None, data('count'))
+    elif form == 'pmono':
+        if len(snew) != 1:
+            raise Violation(f'Pmono created {len(snew)} synths', None, data('mono-count'))
+        nid = snew[0][1][2]
+        sets = [(t, x) for t, x in msgs if x[0] == '/n_set' and x[1] == nid and 'freq' in x[2:]]
+        if len(sets) != 2:
+            raise Violation(f'Pmono: {len(sets)} /n_set messages carrying freq for events 2 and 3 (messages '
+                            f'{[x[:4] for _, x in msgs]})', None, data('mono-count'))
+        acc = z3.RealVal(0)
+        seq = [snew[0]] + sorted(sets, key=lambda p: 0)       # score order = time order
+        for k, (t, x) in enumerate(seq):
+            args = x[5:] if x[0] == '/s_new' else x[2:]
+            fv = dict(zip(args[0::2], args[1::2])).get('freq')
+            ctx.prove(R(t) == start + acc, f'Pmono: event {k} is not on the pattern\'s timeline', data('mono-time'))
+            ctx.prove(R(fv) == R(fr[k]) * R(harm) + R(det), f'Pmono: event {k} ({x[0]}) carries freq {fv!r}, the event\'s '
+                      'frequency is freq * harmonic + detune', data('mono-freq'))
+            acc = acc + R(durs[k])
     else:
         # Pdur: the events that start before the requested total are played on the pattern's timeline and the player
         # finishes exactly at start + total (when the pattern is at least that long)
@@ -515,16 +540,17 @@ def main(tier, seed):
                 jobs.append(dict(kind='play', inst=inst, present=present, add_action=aa, rest=0))
         jobs.append(dict(kind='play', inst=inst, present=['amp'], add_action=None, rest=1))
     jobs += [dict(kind='player', form='pbind', stretch=0), dict(kind='player', form='pbind', stretch=1),
-             dict(kind='player', form='ppar'), dict(kind='player', form='pdur')]
+             dict(kind='player', form='ppar'), dict(kind='player', form='pdur'), dict(kind='player', form='pmono')]
     for r in run_jobs('vf.props.c14', 'job', jobs, 'nrt'):
         chk.add('events', r)
     chk.require_notes('events', ['chain:degree', 'chain:note', 'chain:midinote', 'chain:freq', 'chain:none', 'ampdur',
-                                 'play:vgate', 'play:vplain', 'rest', 'player:pbind', 'player:ppar', 'player:pdur'])
+                                 'play:vgate', 'play:vplain', 'rest', 'player:pbind', 'player:ppar', 'player:pdur',
+                                 'player:pmono'])
     chk.bounds = {'pitch': 'degree -9..15, mtranspose -3..3 (symbolic ints), other keys symbolic reals; default major '
                            'scale in equal temperament (+ one job with an explicit scale)',
                   'play': 'two instruments (with / without gate), 5 sets of defined controls, 2 add actions, rest',
                   'players': 'Pbind of 3 events (with/without stretch), Ppar of 3 children (1 + 3 + 3 events, symbolic '
-                             'durations), Pdur over a 3-event Pbind with symbolic total',
+                             'durations), Pdur over a 3-event Pbind with symbolic total, Pmono of 3 events with symbolic freq / harmonic / detune',
                   'outside': 'Pmono internals, MIDI events, tunings other than 12-tone equal temperament, Pchain'}
     chk.assumptions = ['exp2 / exp10 are uninterpreted kernels (inverse axioms); 1/12 and 1/440 denote their rationals',
                        'OSC struct packing of symbolic values uses placeholders; the score list is read directly']
